@@ -61,7 +61,18 @@ def gen_tasks(tier, seed, kind="lae"):
                 tasks.append({**base, "edges": light, "kwargs": {"k": kk2, "weight_type": "int"}})
                 tasks.append({**base, "edges": heavy, "kwargs": {"k": kk2, "weight_type": "int"}})
             tasks.append({**base, "edges": light, "kwargs": {"k": 2, "weight_type": "float"}})
+            # node-weighted with a zero / fractional error scale on a node
+            if any(nf.values()) and len(G) > 2:
+                vz = rng.choice([v for v in G.nodes()])
+                if any(f for v, f in nf.items() if v != vz):
+                    tasks.append({**base, "edges": es, "node_flow": nf, "node_mode": True, "scaling": [[vz, 0]], "kwargs": {"k": kk, "weight_type": "int", "flow_attr_origin": "node", "error_scaling": [[vz, 0]]}})
+                    tasks.append({**base, "edges": es, "node_flow": nf, "node_mode": True, "scaling": [[vz, 0.5]], "kwargs": {"k": kk, "weight_type": "int", "flow_attr_origin": "node", "error_scaling": [[vz, 0.5]]}})
             if kind == "mpe":
+                for fac in (2, 0.5):
+                    tasks.append({**base, "edges": arb, "allow_empty": True, "superset": [1, 2, 2], "plf": {"ranges": [[0, 3], [4, 50]], "factors": [1, fac]},
+                                  "kwargs": {"k": kk, "weight_type": "int", "solution_weights_superset": [1, 2, 2], "path_length_ranges": [[0, 3], [4, 50]], "path_length_factors": [1, fac]}})
+                    tasks.append({**base, "edges": arb, "plf": {"ranges": [[0, 3], [4, 50]], "factors": [fac, 1]},
+                                  "kwargs": {"k": kk, "weight_type": "int", "path_length_ranges": [[0, 3], [4, 50]], "path_length_factors": [fac, 1]}})
                 tasks.append({**base, "edges": arb, "plf": {"ranges": [[0, 3], [4, 50]], "factors": [1, 2]},
                               "kwargs": {"k": kk, "weight_type": "int", "path_length_ranges": [[0, 3], [4, 50]], "path_length_factors": [1, 2]}})
     for name, es in I.digraphs(tier, rng, quick_n=8, thorough_n=50):
@@ -86,6 +97,12 @@ def gen_tasks(tier, seed, kind="lae"):
                           "kwargs": {"k": 2, "weight_type": "int", "flow_attr_origin": "node", "additional_ends": [w]}})
             tasks.append({**base, "edges": es, "node_flow": nf, "node_mode": True, "starts": [v], "ends": [],
                           "kwargs": {"k": 2, "weight_type": "int", "flow_attr_origin": "node", "additional_starts": [v]}})
+        nfs = {x: rng.choice((1, 2, 3)) for x in G.nodes()}
+        vz = rng.choice(list(G.nodes()))
+        for sc0 in (0, 0.5):
+            tasks.append({**base, "edges": es, "node_flow": nfs, "node_mode": True, "scaling": [[vz, sc0]], "kwargs": {"k": 2, "weight_type": "int", "flow_attr_origin": "node", "error_scaling": [[vz, sc0]]}})
+        if kind == "mpe":
+            tasks.append({**base, "edges": es, "node_flow": nfs, "node_mode": True, "scaling": [[vz, 0]], "kwargs": {"k": None, "weight_type": "int", "flow_attr_origin": "node", "error_scaling": [[vz, 0]]}})
         nfz = {x: rng.choice((0, 1, 2, 3)) for x in G.nodes()}
         if any(nfz.values()):
             tasks.append({**base, "edges": es, "node_flow": nfz, "node_mode": True, "kwargs": {"k": 1, "weight_type": "int", "flow_attr_origin": "node"}})
